@@ -171,7 +171,7 @@ func (w *websocket) send(packets []*packet.Packet) {
 					}
 					return
 				}
-				return
+				continue
 
 			}
 		}
